@@ -66,6 +66,37 @@ func scaleFloats(v reflect.Value, f float64, depth int) {
 	}
 }
 
+// rescaleExported divides the period fields a caller can reach (exported fields, through exported
+// fields only) by k: a reconfiguration of a live instance between two calls.
+func rescaleExported(v reflect.Value, k int, depth int) {
+	if depth > 16 || k <= 1 {
+		return
+	}
+	switch v.Kind() {
+	case reflect.Ptr, reflect.Interface:
+		if !v.IsNil() {
+			rescaleExported(v.Elem(), k, depth+1)
+		}
+	case reflect.Struct:
+		for i := 0; i < v.NumField(); i++ {
+			sf := v.Type().Field(i)
+			f := v.Field(i)
+			if !sf.IsExported() || !f.CanSet() {
+				continue
+			}
+			if f.Kind() == reflect.Int && strings.Contains(sf.Name, "Period") {
+				f.SetInt(int64(max(1, (int(f.Int())+k-1)/k)))
+			} else {
+				rescaleExported(f, k, depth+1)
+			}
+		}
+	case reflect.Slice:
+		for i := 0; i < v.Len(); i++ {
+			rescaleExported(v.Index(i), k, depth+1)
+		}
+	}
+}
+
 var variantFactor = []float64{1, 1.5, 0.5}
 
 // makeIndV is makeInd plus the variant of the non-period parameters.
